@@ -99,6 +99,12 @@ p_socket_address_new_from_native (pconstpointer	native,
 	if (P_UNLIKELY (native == NULL || len == 0))
 		return NULL;
 
+	/* The family field itself must lie within the given buffer */
+	if (P_UNLIKELY (len < (psize) ((const pchar *) &((const struct sockaddr *) native)->sa_family -
+				       (const pchar *) native) +
+				  sizeof (((const struct sockaddr *) native)->sa_family)))
+		return NULL;
+
 	if (P_UNLIKELY ((ret = p_malloc0 (sizeof (PSocketAddress))) == NULL))
 		return NULL;
 
